@@ -1,9 +1,12 @@
 import SciVerif.Tie.Consts
 import SciVerif.Tie.Task
 import SciVerif.Props.C15
+import SciVerif.Tie.Pins
 /-! Tie A obligations for C15 on the current source: regex literals, and the call sequence of each
 `case` of `formatCommand` / `SetOut` that the Lean model mirrors. -/
 namespace SciVerif.Tie
+-- functions the model relies on without an obligation of its own naming them (pinned by bin/mkpins):
+-- PIN-ALSO: Scipipe.Process_initPortsFromCmdPattern Scipipe.NewTask
 open SciVerif.Generated
 
 theorem generated_consts_c15 : constsMatch = true := by decide
@@ -69,7 +72,25 @@ theorem generated_default_path_shape :
      count (·.isCall "sortedStringMapKeys") l == 2 &&
      l.any (fun a => a.isCall "Join" && a.args == ["pathPcs", "\".\""])) = true := by decide
 
+
+-- BEGIN PINS (written by bin/mkpins; do not edit by hand)
+/-- the Go functions this property's model and obligations were written against have exactly the
+pinned skeletons (SHA-256 prefix of the atom list) -/
+theorem pinned_skeletons_c15 :
+    pinsOk
+    [("Scipipe.NewTask", "95298f03c320cb96"),
+     ("Scipipe.Process_SetOut", "a1605d3714f8fc2a"),
+     ("Scipipe.Process_initDefaultPathFuncs", "012072977ffdc36d"),
+     ("Scipipe.Process_initPortsFromCmdPattern", "4f7c6ade86c29af6"),
+     ("Scipipe.Task_formatCommand", "ccbe98735ce5c7d6"),
+     ("Scipipe.applyPathModifiers", "8f319e3baa487b4a"),
+     ("Scipipe.getShellCommandPlaceHolderRegex", "2974b35d7f6e39cc"),
+     ("Scipipe.pathIsValid", "769a2bbc57bb6972"),
+     ("Scipipe.sanitizePathFragment", "eb309140aa9dd69d")] = true := by decide
+-- END PINS
+
 end SciVerif.Tie
+#print axioms SciVerif.Tie.pinned_skeletons_c15
 #print axioms SciVerif.Tie.generated_consts_c15
 #print axioms SciVerif.Tie.generated_format_cases
 #print axioms SciVerif.Tie.generated_format_loop
